@@ -110,13 +110,13 @@ package main
 //@ contract diffV2
 //@   ensures ret2 == nil && (*format == "" || *format == "jd") ==> ret1 == (ret0 != "")
 //@   ensures ret2 == nil && *format == "patch" ==> ret1 == (ret0 != "[]")
-//@   ensures ret2 == nil && *format == "merge" ==> ret1 == (ret0 != "{}")
+//@   ensures ret2 == nil && *format == "merge" ==> ret1 == (len(diff) > 0)
 //@   carries C14 C05
 
 //@ contract diff
 //@   ensures ret2 == nil && (*format == "" || *format == "jd") ==> ret1 == (ret0 != "")
 //@   ensures ret2 == nil && *format == "patch" ==> ret1 == (ret0 != "[]")
-//@   ensures ret2 == nil && *format == "merge" ==> ret1 == (ret0 != "{}")
+//@   ensures ret2 == nil && *format == "merge" ==> ret1 == (len(diff) > 0)
 //@   carries C14 C05 C17
 
 //@ contract main
